@@ -15,6 +15,7 @@ mod c09_15;
 mod dml;
 mod hist;
 mod c21;
+mod txn;
 
 /// Expands to a `match` over property ids calling the generic function `$f`
 /// with the check value followed by the extra arguments.
@@ -32,6 +33,8 @@ macro_rules! dispatch {
             "C10" => $f(c09_15::C10, $($extra),*),
             "C11" => $f(c09_15::C11, $($extra),*),
             "C12" => $f(c09_15::C12, $($extra),*),
+            "C13" => $f(txn::C13, $($extra),*),
+            "C14" => $f(txn::C14, $($extra),*),
             "C15" => $f(c09_15::C15, $($extra),*),
             "C21" => $f(c21::C21, $($extra),*),
             other => {
